@@ -9,6 +9,7 @@ import (
 type commitable[T any] struct {
 	comittedValue T
 	stagedValue   typeutils.Optional[T]
+	previousValue typeutils.Optional[T] // The value replaced by the last Commit, until it is confirmed
 }
 
 func NewCommitable[T any](value T) commitable[T] {
@@ -29,9 +30,26 @@ func (c *commitable[T]) Stage(value T) {
 
 func (c *commitable[T]) Commit() {
 	if val, ok := c.stagedValue.Get(); ok {
+		c.previousValue = typeutils.Some(c.comittedValue)
 		c.comittedValue = val
 		c.stagedValue = typeutils.None[T]()
 	}
+}
+
+// Undoes the last Commit (if it has not been confirmed) and drops anything staged.
+func (c *commitable[T]) Rollback() {
+	if val, ok := c.previousValue.Get(); ok {
+		c.comittedValue = val
+		c.previousValue = typeutils.None[T]()
+	}
+	c.stagedValue = typeutils.None[T]()
+}
+
+// Confirms the last Commit and returns the value it replaced, if any.
+func (c *commitable[T]) Confirm() (previous T, hadPrevious bool) {
+	previous, hadPrevious = c.previousValue.Get()
+	c.previousValue = typeutils.None[T]()
+	return previous, hadPrevious
 }
 
 func (c *commitable[T]) Uncommit() {
